@@ -57,7 +57,7 @@ func (prop) Info() fw.Info {
 			"a fact is demanded only where docs or goldens show that the importer carries it; enum values, descriptions, size constraints and index details are not compared",
 			"the arr.ai bundles are exercised as shipped (binary assets); source-level mutation of them is out of reach",
 		},
-		CaseTimeout: 180,
+		CaseTimeout: 600,
 		CountFloors: map[string]int{"docs_oas2": 100, "docs_xsd": 40, "docs_oas3": 16, "docs_sql": 16, "schemas_compared": 300, "properties_compared": 1000,
 			"endpoints_compared": 150, "params_compared": 200, "responses_compared": 200, "idempotence_pairs": 200, "crossprocess_pairs": 10},
 		SetFloors: map[string]int{"constructs": 120},
@@ -82,6 +82,18 @@ type docCase struct {
 }
 
 func (prop) Run(ctx *fw.Ctx, i int) fw.Result {
+	dc := caseFor(ctx, i)
+	// C11_FORMATS=oas2,xsd restricts a development run (mutation validation) to some
+	// formats; the skipped cases count for nothing, so the count floors turn such a run
+	// inconclusive rather than green.
+	if only := os.Getenv("C11_FORMATS"); only != "" && !strings.Contains(","+only+",", ","+dc.format+",") {
+		return fw.Result{Verdict: "skip", Note: "format excluded by C11_FORMATS"}
+	}
+	return runDoc(ctx, i, dc)
+}
+
+// caseFor generates the document of case i (a pure function of seed, tier and i).
+func caseFor(ctx *fw.Ctx, i int) *docCase {
 	r := ctx.Rng()
 	n2, nx, n3, _ := plan(ctx.Tier)
 	var dc *docCase
@@ -95,7 +107,7 @@ func (prop) Run(ctx *fw.Ctx, i int) fw.Result {
 	default:
 		dc = sqlCase(r, []string{"spannerSQL", "postgres", "mysql", "bigquery"}[(i-n2-nx-n3)%4], ctx.Thorough())
 	}
-	return runDoc(ctx, i, dc)
+	return dc
 }
 
 func oasCase(r *fw.Rand, v int, thorough bool) *docCase {
